@@ -63,6 +63,7 @@ package ice
 //@   ghostvar pending bool = false
 //@   loop 1 invariant not-holding-between-iterations: !holding && !pending
 //@   site call Lock#1 ghost holding := true
+//@   site call Lock#1 assume after this-goroutine-is-a-counted-drainer: h.gCsDrainers >= 1
 //@   site store connectionStates#1 ghost before delivered := h.gCsLog[h.gCsD]
 //@   site store connectionStates#1 assert pops-the-head: value.base == old(0) + h.connectionStates.base && value.off == h.connectionStates.off + 1 && len(value) == len(h.connectionStates) - 1
 //@   site store connectionStates#1 ghost h.gCsD := h.gCsD + 1
@@ -96,6 +97,7 @@ package ice
 //@   ghostvar pending bool = false
 //@   loop 1 invariant not-holding-between-iterations: !holding && !pending
 //@   site call Lock#1 ghost holding := true
+//@   site call Lock#1 assume after this-goroutine-is-a-counted-drainer: h.gCaDrainers >= 1
 //@   site store candidates#1 ghost before delivered := h.gCaLogV[h.gCaD]
 //@   site store candidates#1 ghost before deliveredT := h.gCaLogT[h.gCaD]
 //@   site store candidates#1 assert pops-the-head: value.base == old(0) + h.candidates.base && value.off == h.candidates.off + 1 && len(value) == len(h.candidates) - 1
@@ -128,6 +130,7 @@ package ice
 //@   ghostvar pending bool = false
 //@   loop 1 invariant not-holding-between-iterations: !holding && !pending
 //@   site call Lock#1 ghost holding := true
+//@   site call Lock#1 assume after this-goroutine-is-a-counted-drainer: h.gPaDrainers >= 1
 //@   site store selectedCandidatePairs#1 ghost before delivered := h.gPaLog[h.gPaD]
 //@   site store selectedCandidatePairs#1 assert pops-the-head: value.base == old(0) + h.selectedCandidatePairs.base && value.off == h.selectedCandidatePairs.off + 1 && len(value) == len(h.selectedCandidatePairs) - 1
 //@   site store selectedCandidatePairs#1 ghost h.gPaD := h.gPaD + 1
